@@ -19,7 +19,7 @@ claim("C14", "threshold/constant table extraction from the CFG of flushFrame and
       TB, "DESIGN.md §3 C14")
 
 claim("C15", "static call graph reachability (panic sites), dominance of index uses by error tests, who-may-write field rules, threshold extraction, monotonicity of the sticky-error field on go/cfg",
-      "Static rules over webtransport/conn.go read paths: the only panic reachable from NextReader/ReadMessage/messageReader.Read is the documented repeated-read guard (>=1000); every use of header bytes is dominated by the err==nil edge of its read(n) and fits in n; readRemaining is written only by setReadRemaining which rejects negatives and whose callers propagate the error; the reader clamps to readRemaining and skips leftovers; the read limit (accumulate, overflow test, limit test → CloseWithError+ErrReadLimit) dominates every successful data-frame return; readErr is monotone (first failure or EOF→unexpected-EOF refinement) and returned by the error exit; stale readers are inert. Totality over every byte stream as a run-time fact is not decided.",
+      "Static rules over webtransport/conn.go read paths: the only panic reachable from NextReader/ReadMessage/messageReader.Read is the documented repeated-read guard (>=1000); every use of header bytes is dominated by the err==nil edge of its read(n) and fits in n; readRemaining is written only by setReadRemaining which rejects negatives and whose callers propagate the error; the reader clamps to readRemaining and skips leftovers; the read limit (accumulate, overflow test, limit test → CloseWithError+ErrReadLimit) dominates every successful data-frame return; readErr is monotone (first failure or EOF→unexpected-EOF refinement) and returned by the error exit; stale readers are inert and every message gets a freshly allocated reader object (the identity test depends on it). Totality over every byte stream as a run-time fact is not decided.",
       TB, "DESIGN.md §3 C15")
 
 claim("C20", "must-held-lock dataflow per field access, who-may-call for lock-free helpers, parameter-aliasing rules on append/store/return, two-sided bound facts by edge dominance, emitter shape rules",
@@ -31,7 +31,7 @@ claim("C19", "select-arm/polarity table extraction from the AST and CFG of utils
       TB, "DESIGN.md §3 C19")
 
 claim("C03", "who-may-write state table with constant evaluation, atomic-transition (CAS/Swap) rule, dominance and must-precede queries on go/cfg, listener register/remove pairing over resolved objects",
-      "Static rules over engine/socket.go and transports/transport.go: the ready state is written only by the four transitions of the table, each strictly forward and each a single CompareAndSwap/Swap whose result licenses its effects (the structural form of 'exactly one close event under every interleaving'); the close epilogue (timers cleared, both callback queues cleared, transport listeners removed) precedes the single Emit(close), which only OnClose may emit; every OnClose call carries a documented reason constant; every session-level emit of the silenced events and every effect of sendPacket is dominated by a state test excluding closed (closing); listener registrations are paired with removals; transport Close/OnClose are guarded. That no schedule yields a second event follows from the atomic transitions by a pencil argument; schedules are not explored.",
+      "Static rules over engine/socket.go and transports/transport.go: the ready state is written only by the four transitions of the table, each strictly forward and each a single CompareAndSwap/Swap whose result licenses its effects (the structural form of 'exactly one close event under every interleaving'); the close epilogue (timers cleared, both callback queues cleared, transport listeners removed) precedes the single Emit(close), which only OnClose may emit; every OnClose call carries a documented reason constant; every session-level emit of the silenced events and every effect of sendPacket is dominated by a state test excluding closed (closing); listener registrations are paired with removals; transport Close/OnClose are guarded; a read failure is reported as an error (reason 'transport error') only when it is not a close error of the peer, whatever its status code (websocket ∥ webtransport ∥ Upgrader.Error). That no schedule yields a second event follows from the atomic transitions by a pencil argument; schedules are not explored.",
       TB, "DESIGN.md §3 C03")
 
 claim("C04", "who-may-write rules for the client table and counter, pairing on all exits (dominance), lookup-edge rules, registration-window typestate, SSA-free value identity via reaching definitions, id construction table",
@@ -55,7 +55,7 @@ claim("C05", "constant table vs README/protocol table, precedence read off the C
       TB, "DESIGN.md §3 C05")
 
 claim("C06", "field table of the open packet with resolved accessor chains, must-precede queries, reaching-definition rule for the per-session initial packet, constant tables of the transport builders, sibling agreement of the three revision discriminators",
-      "Static rules over engine/socket.go, engine/base-server.go, transports/builder.go, transports/transport.go: the open packet has exactly sid/upgrades/pingInterval/pingTimeout/maxPayload fed by s.id, getAvailableUpgrades and the Opts() accessors (intervals divided by time.Millisecond); transition ≺ SetSid ≺ OPEN (first packet, marshalled map) ≺ initial MESSAGE (a per-session Clone of the shared reader) ≺ Emit(open) ≺ heartbeat arming; upgrades = builder targets of the current transport filtered by enabled transports, empty when upgrades are disabled, builder table polling→{websocket,webtransport}; exactly one NewSocket/Store/Emit(connection) on the success path and none on reject paths; protocol = EIO==\"4\"?4:3 passed to NewSocket, the parser chosen on the same predicate, heartbeat mode keyed on s.protocol; per-transport limits handed over from the same option accessors. Numeric equality advertised = enforced at run time and JSON rendering are not decided.",
+      "Static rules over engine/socket.go, engine/base-server.go, transports/builder.go, transports/transport.go: the open packet has exactly sid/upgrades/pingInterval/pingTimeout/maxPayload fed by s.id, getAvailableUpgrades and the Opts() accessors (intervals divided by time.Millisecond); transition ≺ SetSid ≺ OPEN (first packet, marshalled map) ≺ initial MESSAGE (a per-session Clone of the shared reader, taken for every implementation of types.BufferInterface) ≺ Emit(open) ≺ heartbeat arming; upgrades = builder targets of the current transport filtered by enabled transports, empty when upgrades are disabled, builder table polling→{websocket,webtransport}; exactly one NewSocket/Store/Emit(connection) on the success path and none on reject paths; protocol = EIO==\"4\"?4:3 passed to NewSocket, the parser chosen on the same predicate, heartbeat mode keyed on s.protocol; per-transport limits handed over from the same option accessors. Numeric equality advertised = enforced at run time and JSON rendering are not decided.",
       TB, "DESIGN.md §3 C06")
 
 claim("C07", "duration table via resolved option-accessor chains, branch-effect table of onPacket by edge dominance, arming/use discriminator agreement (Engler-style contradiction rule) with nil-holder licence, timer polarity table",
@@ -63,17 +63,17 @@ claim("C07", "duration table via resolved option-accessor chains, branch-effect 
       TB, "DESIGN.md §3 C07")
 
 claim("C08", "sibling gate agreement by edge dominance, who-may-install-a-transport, branch-effect rules of the upgrade listener, cleanup-before-close on every non-switch exit, atomic claim (CAS) rule, listener-before-reader typestate",
-      "Static rules over engine/server.go and engine/socket.go MaybeUpgrade: both upgrade entry points reach MaybeUpgrade only for a known, not upgrading, not upgraded session with a successfully created candidate and close the connection otherwise; the transport is installed only by setTransport and, in the listener, only on UPGRADE ∧ not closed (upgraded set there, never reset); the probe is answered with one PONG probe on the candidate and the check interval re-armed, NOOP only on a writable polling transport; every non-switch outcome runs cleanup before closing the candidate and never touches the session or its transport; the upgrading claim is one CompareAndSwap whose loser is closed. The reader goroutine is started before any listener is attached (two listed findings). Message continuity across the switch, liveness of a conformant upgrade and timer timing are not decided.",
+      "Static rules over engine/server.go and engine/socket.go MaybeUpgrade: both upgrade entry points reach MaybeUpgrade only for a known, not upgrading, not upgraded session with a successfully created candidate and close the connection otherwise; the transport is installed only by setTransport and, in the listener, only on UPGRADE ∧ not closed (upgraded set there, never reset); the probe is answered with one PONG probe on the candidate and the check interval re-armed, NOOP only on a writable polling transport; every non-switch outcome runs cleanup before closing the candidate and never touches the session or its transport; the upgrading claim is one CompareAndSwap whose loser is closed; flag cover: upgraded is set before cleanup() resets upgrading and MaybeUpgrade re-tests upgraded after winning the claim, so no later candidate ever sees both flags clear (at most one switch per session). The reader goroutine is started before any listener is attached (two listed findings). Message continuity across the switch, liveness of a conformant upgrade and timer timing are not decided.",
       TB, "DESIGN.md §3 C08")
 
 claim("C09", "call-graph reachability from the client-byte entry points (static calls + CHA + the repo's listener and timer-callback wiring) for the panic allow-list, interprocedural must-held-lock rule for connection writes, nil-safety rules, emitter/listener signature agreement by type assignability, answer-or-park path rule, reader-loop exit rule",
-      "Crash and hang clauses only: the only explicit panics reachable from client input are the allow-listed webtransport guards (made unreachable by the rule that every connection write holds the transport mutex) and the documented repeated-read guard; no Timer method on a nil holder; JSON decode targets cannot be nil-dereferenced; every unchecked type assertion / index in a listener is matched by all Emit sites of that event (argument count and assignable type) and errorContext messages are strings; every path of the polling/HTTP request functions answers, parks or delegates; reader goroutines leave their loop on a read error; request bodies and frames are read through limits. Work proportional to input (the known exponential spin is in the external parser), run-time panics inside dependencies and isolation under load are not decided.",
+      "Crash and hang clauses only: the only explicit panics reachable from client input are the allow-listed webtransport guards (made unreachable by the rule that every connection write holds the transport mutex) and the documented repeated-read guard; no Timer method on a nil holder; JSON decode targets cannot be nil-dereferenced; every unchecked type assertion / index in a listener is matched by all Emit sites of that event (argument count and assignable type) and errorContext messages are strings; every other single-value type assertion in the repository is a frozen site whose dynamic type the repository fixes (none on packet data); every path of the polling/HTTP request functions answers, parks or delegates; reader goroutines leave their loop on a read error; request bodies and frames are read through limits. Work proportional to input (the known exponential spin is in the external parser), run-time panics inside dependencies and isolation under load are not decided.",
       TB, "DESIGN.md §3 C09")
 claim("C10", "taint-style who-may-read rule for request bodies, dominance of body reads by the declared-length test, must-precede of SetReadLimit before the first read, limit-enforcement path rule in advanceFrame, resolved option-accessor chains",
       "Static rules: every use of a request body other than Close goes through http.MaxBytesReader/LimitReader with a limit from MaxHttpBufferSize() and overflow is answered 413; a declared oversize is refused with 413 before reading; the gorilla and WebTransport connections get SetReadLimit(Opts().MaxHttpBufferSize()) before the first read and the limited Conn is the one used; advanceFrame's every successful data-frame return passes the accumulate/overflow/limit tests (violation edge closes the session and returns ErrReadLimit); the reader clamps to the declared length; transports receive their limit from the same option accessor that the open packet advertises. Byte/character accounting, 'limit plus a constant' as a number and gorilla's own enforcement are not decided.",
       TB, "DESIGN.md §3 C10")
 claim("C11", "atomic claim (CAS) rule for the pending-request slots, overlap-edge effect table, single-writer rule for the raw ResponseWriter (who-may-use + held lock + done guard), must-precede for the ok acknowledgement, answer-or-park path rule, close-release effect table",
-      "Static rules over transports/polling.go and types/http-context.go: the poll and data slots are claimed with CompareAndSwap(nil, ctx) and only nil is ever stored otherwise; the overlap edge reports the error, answers 400 and returns; HttpContext.Write is the only writer of the raw ResponseWriter (besides the protocol upgraders), under its mutex, only when not done, and marks done once; 'ok' is written only after OnData and cleanup, on a synchronous dispatch chain; every path of the request functions answers or parks; DoClose/OnClose/send/respond release a pending poll with close/noop or a bounded timer. Pairing under aborts racing with writes is not decided.",
+      "Static rules over transports/polling.go and types/http-context.go: the poll and data slots are claimed with CompareAndSwap(nil, ctx) and only nil is ever stored otherwise; the overlap edge reports the error, answers 400 and returns; HttpContext.Write is the only writer of the raw ResponseWriter (besides the protocol upgraders), under its mutex, only when not done, and marks done once; 'ok' is written only after OnData and cleanup, on a synchronous dispatch chain; every path of the request functions answers or parks; DoClose/OnClose/send/respond release a pending poll with close/noop or a bounded timer; no call site bypasses an overriding transport method through the embedded base (every close of a polling transport runs polling.OnClose). Pairing under aborts racing with writes is not decided.",
       TB, "DESIGN.md §3 C11")
 
 claim("C12", "branch-effect rules of Close/closeTransport, range-callback rule for shutdown, listener wiring rule, polling close-release effect table, lock-ordering rule between DoClose and the send goroutine, must-precede of the close callback",
